@@ -1,6 +1,6 @@
 (* PfInvA.v — the structural invariant InvA is established by [init] and preserved by
    every step of the model.  Exports one-step characterisations of evict_one,
-   pop_until_stored, find_victim, mem_loop, entry_limit, insert_sync, insert_async,
+   pop_until_stored, find_victim, find_victim_ch, mem_loop, entry_limit, insert_sync, insert_async,
    get and inval_keys for the later proofs. *)
 From CL Require Export Lemmas.
 From Coq Require Import Lia.
@@ -158,6 +158,90 @@ Proof.
   congruence.
 Qed.
 
+(* score_at: the score of the first queue position of a stored key *)
+Lemma score_at_sound : forall sc m q i k s,
+    score_at sc m q i k = Some s ->
+    exists j e, nth_key j q = Some k /\ lookup k m = Some e /\ s = sc (i + j)%nat e.
+Proof.
+  intros sc m q. induction q as [|a q IH]; intros i k s H; cbn [score_at] in H; [discriminate H|].
+  destruct (N.eqb_spec k a) as [E|E].
+  - subst a. destruct (lookup k m) as [e|] eqn:El; cbn [option_map] in H; [|discriminate H].
+    inversion H; subst s. exists 0%nat, e. cbn [nth_key].
+    split; [reflexivity|]. split; [reflexivity|]. replace (i + 0)%nat with i by lia. reflexivity.
+  - destruct (IH _ _ _ H) as (j & e & Hn & Hl & Hs). exists (S j), e. cbn [nth_key].
+    split; [exact Hn|]. split; [exact Hl|]. replace (i + S j)%nat with (S i + j)%nat by lia. exact Hs.
+Qed.
+
+Lemma score_at_In : forall sc m q i k s,
+    score_at sc m q i k = Some s -> In k q /\ In k (keys m).
+Proof.
+  intros sc m q i k s H. destruct (score_at_sound _ _ _ _ _ _ H) as (j & e & Hn & Hl & _).
+  split; [apply (nth_key_In j); exact Hn|apply (lookup_Some_In k m e); exact Hl].
+Qed.
+
+(* find_victim_ch: the victim evict_one picks under the scored policies *)
+Lemma find_victim_ch_None : forall c now m q ch ch',
+    find_victim_ch c now m q ch = (None, ch') -> find_victim c now m q = None.
+Proof.
+  intros c now m q ch ch' H. unfold find_victim_ch in H. unfold find_victim.
+  destruct (first_min (score c now (length q)) m q 0%nat None) as [[v s]|]; [|reflexivity].
+  exfalso. destruct ch as [|k ch0]; [discriminate H|].
+  destruct (score_at (score c now (length q)) m q 0%nat k) as [sk|]; [|discriminate H].
+  destruct (N.eqb sk s); discriminate H.
+Qed.
+
+Lemma find_victim_None_ch : forall c now m q ch,
+    find_victim c now m q = None -> find_victim_ch c now m q ch = (None, ch).
+Proof.
+  intros c now m q ch H. unfold find_victim in H. unfold find_victim_ch.
+  destruct (first_min (score c now (length q)) m q 0%nat None) as [[v s]|];
+    [discriminate H|reflexivity].
+Qed.
+
+Lemma find_victim_ch_None_iff : forall c now m q ch,
+    fst (find_victim_ch c now m q ch) = None <-> find_victim c now m q = None.
+Proof.
+  intros c now m q ch. split; intro H.
+  - destruct (find_victim_ch c now m q ch) as [ov ch'] eqn:E. cbn [fst] in H. subst ov.
+    apply (find_victim_ch_None _ _ _ _ _ _ E).
+  - rewrite (find_victim_None_ch _ _ _ _ ch H). reflexivity.
+Qed.
+
+Lemma find_victim_ch_In : forall c now m q ch v ch',
+    find_victim_ch c now m q ch = (Some v, ch') -> In v q /\ In v (keys m).
+Proof.
+  intros c now m q ch v ch' H. unfold find_victim_ch in H.
+  destruct (first_min (score c now (length q)) m q 0%nat None) as [[v0 s0]|] eqn:E; [|discriminate H].
+  assert (H0 : In v0 q /\ In v0 (keys m)).
+  { apply (find_victim_In c now). unfold find_victim. rewrite E. reflexivity. }
+  destruct ch as [|k ch0]; [inversion H; subst; exact H0|].
+  destruct (score_at (score c now (length q)) m q 0%nat k) as [sk|] eqn:Ek;
+    [|inversion H; subst; exact H0].
+  destruct (N.eqb sk s0); inversion H; subst; [|exact H0].
+  apply (score_at_In _ _ _ _ _ _ Ek).
+Qed.
+
+Lemma find_victim_ch_Some : forall c now m q ch,
+    (exists k, In k q /\ In k (keys m)) ->
+    exists v ch', find_victim_ch c now m q ch = (Some v, ch').
+Proof.
+  intros c now m q ch H.
+  destruct (find_victim_ch c now m q ch) as [[v|] ch'] eqn:E; [exists v, ch'; reflexivity|].
+  apply find_victim_ch_None in E. destruct (find_victim_Some c now m q H) as [v Hv]. congruence.
+Qed.
+
+(* one choice is consumed when there is one and a victim exists *)
+Lemma find_victim_ch_choices : forall c now m q ch ov ch',
+    find_victim_ch c now m q ch = (ov, ch') -> ch' = ch \/ ch' = tl ch.
+Proof.
+  intros c now m q ch ov ch' H. unfold find_victim_ch in H.
+  destruct (first_min (score c now (length q)) m q 0%nat None) as [[v s]|];
+    [|inversion H; left; reflexivity].
+  destruct ch as [|k ch0]; [inversion H; left; reflexivity|]. right. cbn [tl].
+  destruct (score_at (score c now (length q)) m q 0%nat k) as [sk|]; [|inversion H; reflexivity].
+  destruct (N.eqb sk s); inversion H; reflexivity.
+Qed.
+
 (* ------------------------------------------------------------------ *)
 (** * pop_until_stored / pop_one_unchecked / random_pos *)
 
@@ -230,16 +314,18 @@ Lemma evict_one_spec : forall c now u m q ch m' q' ev ch',
 Proof.
   intros c now u m q ch m' q' ev ch' Hnd Hiff H.
   assert (Hscore :
-    match find_victim c now m q with
-    | Some v => (sremove v m, (if is_async c then remove_all v q else remove_first v q), true, ch)
-    | None => (m, q, false, ch)
-    end = (m', q', ev, ch') -> evict_post m q m' q' ev).
-  { intro Hs. destruct (find_victim c now m q) as [v|] eqn:Ev.
-    - apply find_victim_In in Ev. destruct Ev as [Hvq _].
+    (let '(ov, ch0) := find_victim_ch c now m q ch in
+     match ov with
+     | Some v => (sremove v m, (if is_async c then remove_all v q else remove_first v q), true, ch0)
+     | None => (m, q, false, ch0)
+     end) = (m', q', ev, ch') -> evict_post m q m' q' ev).
+  { intro Hs. destruct (find_victim_ch c now m q ch) as [[v|] ch0] eqn:Ev.
+    - apply find_victim_ch_In in Ev. destruct Ev as [Hvq _].
       inversion Hs; subst. right. split; [reflexivity|]. exists v.
       split; [exact Hvq|]. split; [reflexivity|].
       destruct (is_async c); [|reflexivity]. symmetry. apply remove_first_remove_all. exact Hnd.
-    - inversion Hs; subst. left.
+    - apply find_victim_ch_None in Ev.
+      inversion Hs; subst. left.
       assert (Hq : q' = []).
       { destruct q' as [|a q'']; [reflexivity|]. exfalso.
         apply (find_victim_None c now m' (a :: q'') Ev a); [left; reflexivity|].
